@@ -83,9 +83,98 @@ def to_term(ctx: Ctx, e, sym):
             return c.or_(*[go(a) for a in e.args])
         if isinstance(e, sp.Not):
             return c.not_(go(e.args[0]))
+        if isinstance(e, sp.ITE):
+            cc, a, b = (go(x) for x in e.args)
+            return c.or_(c.and_(cc, a), c.and_(c.not_(cc), b))
+        if e is sp.true:
+            return z3.BoolVal(True)
+        if e is sp.false:
+            return z3.BoolVal(False)
         if isinstance(e, sp.Heaviside):
             a = c.real(go(e.args[0]))
             return z3.If(a > 0, RV(1), z3.If(a < 0, RV(0), RV(Fraction(1, 2))))
         raise Unsupported(f"sympy node {type(e).__name__}: {str(e)[:60]}")
 
     return go(e)
+
+
+def numeric(e, subs: dict, dps=40):
+    """Evaluate a sympy expression at a point (symbol -> number) with mpmath, branch by branch: the conditions of a
+    Piecewise are decided first and only the selected branch is evaluated (sympy's own subs + N evaluates - and may raise
+    in - the branches that are not taken).  Replay only."""
+    import mpmath as mp
+    import sympy as sp
+
+    mp.mp.dps = dps
+    FN = {sp.exp: mp.exp, sp.log: mp.log, sp.sin: mp.sin, sp.cos: mp.cos, sp.tan: mp.tan, sp.asin: mp.asin, sp.acos: mp.acos,
+          sp.atan: mp.atan, sp.sinh: mp.sinh, sp.cosh: mp.cosh, sp.tanh: mp.tanh, sp.floor: mp.floor, sp.ceiling: mp.ceil}
+
+    def real(v):
+        if isinstance(v, mp.mpc):
+            if v.imag != 0:
+                raise ValueError("complex value")
+            return v.real
+        return v
+
+    def go(x):
+        if x.is_Symbol:
+            return mp.mpf(subs[x])
+        if x is sp.pi:
+            return mp.pi
+        if x is sp.E:
+            return mp.e
+        if x is sp.true:
+            return True
+        if x is sp.false:
+            return False
+        if x.is_Rational:
+            return mp.mpf(x.p) / mp.mpf(x.q)
+        if x.is_Float:
+            return mp.mpf(str(x)) if False else mp.mpf(float(x))
+        if x.is_Add:
+            r = mp.mpf(0)
+            for a in x.args:
+                r += go(a)
+            return r
+        if x.is_Mul:
+            r = mp.mpf(1)
+            for a in x.args:
+                r *= go(a)
+            return r
+        if x.is_Pow:
+            return real(mp.power(go(x.args[0]), go(x.args[1])))
+        if isinstance(x, sp.Piecewise):
+            for val, cond in x.args:
+                if cond is sp.true or go(cond):
+                    return go(val)
+            raise ValueError("no branch of the Piecewise applies")
+        if isinstance(x, sp.core.relational.Relational):
+            a, b = go(x.lhs), go(x.rhs)
+            return {"<": a < b, "<=": a <= b, ">": a > b, ">=": a >= b, "==": a == b, "!=": a != b}[x.rel_op]
+        if isinstance(x, sp.And):
+            return all(go(a) for a in x.args)
+        if isinstance(x, sp.Or):
+            return any(go(a) for a in x.args)
+        if isinstance(x, sp.Not):
+            return not go(x.args[0])
+        if isinstance(x, sp.ITE):
+            return go(x.args[1]) if go(x.args[0]) else go(x.args[2])
+        if isinstance(x, sp.Abs):
+            return abs(go(x.args[0]))
+        if isinstance(x, sp.sign):
+            v = go(x.args[0])
+            return mp.mpf(1 if v > 0 else (-1 if v < 0 else 0))
+        if isinstance(x, sp.Mod):
+            a, b = go(x.args[0]), go(x.args[1])
+            return a - b * mp.floor(a / b)
+        if isinstance(x, sp.Heaviside):
+            v = go(x.args[0])
+            return mp.mpf(1 if v > 0 else (0 if v < 0 else 0.5))
+        if x.func in FN:
+            return real(FN[x.func](go(x.args[0])))
+        raise ValueError(f"numeric: sympy node {type(x).__name__}")
+
+    r = go(e)
+    if isinstance(r, bool):
+        return 1.0 if r else 0.0
+    return float(real(r))
